@@ -7,7 +7,7 @@ from . import reports
 from . import types
 from .types import CodeBlock
 
-from .metacommand_impl import metacommand, get_as_int, get_as_str, int8, int16, int32, uint, uint16
+from .metacommand_impl import metacommand, get_as_int, get_as_str, describe_int, int8, int16, int32, uint, uint16
 
 
 @metacommand(size=lambda state, *operands: len(operands) or 1, alias=".db")
@@ -108,7 +108,7 @@ def rad50(state, string: str) -> bytes:
             if val >= 40:
                 reports.error(
                     "value-out-of-bounds",
-                    (chunk.ctx_start, chunk.ctx_end, f"Character {val} cannot be packed into a radix-50 word.\nA value in range [0; 50) is expected (octal).")
+                    (chunk.ctx_start, chunk.ctx_end, f"Character {describe_int(val)} cannot be packed into a radix-50 word.\nA value in range [0; 50) is expected (octal).")
                 )
                 val = 0
             characters.append(val)
@@ -158,6 +158,12 @@ def odd(state) -> bytes:
 
 @metacommand
 def align(state, count: uint) -> bytes:
+    if not 1 <= count <= 2 ** 16:
+        reports.error(
+            "value-out-of-bounds",
+            (state["insn"].ctx_start, state["insn"].ctx_end, f"'.align' takes a non-zero boundary that fits the 16-bit address space, not {describe_int(count)}")
+        )
+        return b""
     return b"\x00" * ((-wait(state["emit_address"])) % count)
 
 
